@@ -270,7 +270,8 @@ def check_twoplain(case):
                  (nm.name_global("<state>" + a), [1.0] * case["len_nested"]),
                  (nm.name_global("<state>" + b), [2.0] * case["len_plain"])]
     init_args = [(k, v) for k, v in init_args if k in fields]
-    res = F.compile_and_run(text, F.driver_source("m", fields, init_args, case["steps"]))
+    shapes = {nm.name_global("<state>" + a): tuple(case["shape2d"])} if case.get("shape2d") else None
+    res = F.compile_and_run(text, F.driver_source("m", fields, init_args, case["steps"], shapes=shapes))
     info["compiled"] = res["compile_ok"]
     if not res["compile_ok"]:
         errs = [l for l in res["compile_out"].split("\n") if "Error" in l or "error" in l]
